@@ -44,7 +44,7 @@ theorem sockDiscardLoop_spec : ∀ (fuel : Nat) (s : St), s.buf = [] →
     | eof => exact ⟨base rfl, hS', hB'⟩
     | exhausted => exact ⟨base rfl, hS', hB'⟩
     | oserr l =>
-      refine ⟨?_, ⟨hS'.kind, hS'.minP, hS'.maxP, hS'.isOpen⟩, hB'⟩
+      refine ⟨?_, ⟨hS'.kind, hS'.minP, hS'.maxP, hS'.isOpen, hS'.wlog⟩, hB'⟩
       simp only [rxBytes] at hD'
       simp only [tot, hL', hB', hb, ← hD', logBytes_append, logBytes_single, List.append_nil, List.append_assoc]
     | data b =>
@@ -55,7 +55,7 @@ theorem sockDiscardLoop_spec : ∀ (fuel : Nat) (s : St), s.buf = [] →
         exact ⟨base (by simp [rxBytes, this]), hS', hB'⟩
       · have hI := ih { s1 with log := s1.log ++ [(Tag.disc, b)] } hB'
         obtain ⟨h1, h2, h3⟩ := hI
-        refine ⟨?_, ⟨h2.kind.trans hS'.kind, h2.minP.trans hS'.minP, h2.maxP.trans hS'.maxP, h2.isOpen.trans hS'.isOpen⟩, h3⟩
+        refine ⟨?_, ⟨h2.kind.trans hS'.kind, h2.minP.trans hS'.minP, h2.maxP.trans hS'.maxP, h2.isOpen.trans hS'.isOpen, h2.wlog.trans hS'.wlog⟩, h3⟩
         rw [h1]
         simp only [rxBytes] at hD'
         simp only [tot, hL', hB', hb, ← hD', logBytes_append, logBytes_single, List.append_nil, List.append_assoc]
@@ -67,7 +67,7 @@ theorem sockDiscard_spec (s : St) : tot (sockDiscard s).1 = tot s ∧ Same s (so
   · have h := sockDiscardLoop_spec (fuelOf s.dev)
       (setTimeout { s with buf := [], log := s.log ++ [(Tag.disc, s.buf)] } (some 0)).1 rfl
     obtain ⟨h1, h2, _⟩ := h
-    refine ⟨?_, ⟨h2.kind, h2.minP, h2.maxP, h2.isOpen⟩⟩
+    refine ⟨?_, ⟨h2.kind, h2.minP, h2.maxP, h2.isOpen, h2.wlog⟩⟩
     rw [h1]
     simp only [tot, setTimeout, logBytes_append, logBytes_single, List.append_nil]
 
@@ -75,7 +75,7 @@ theorem serialDiscard_spec (s : St) : tot (serialDiscard s).1 = tot s ∧ Same s
   simp only [serialDiscard]
   split
   · exact ⟨rfl, Same.refl s⟩
-  · refine ⟨?_, ⟨rfl, rfl, rfl, rfl⟩⟩
+  · refine ⟨?_, ⟨rfl, rfl, rfl, rfl, rfl⟩⟩
     have := flushSplit_bytes s.dev
     simp only [tot, logBytes_append, logBytes_single, List.append_nil, List.append_assoc, this]
 
@@ -83,13 +83,46 @@ theorem doOpen_tot (s : St) : tot (doOpen s).1 = tot s := by
   simp only [doOpen]
   split
   · rfl
-  · split
-    · rfl
-    · simp only [tot, logBytes_append, logBytes_single, List.append_nil]
+  · cases s.kind <;> cases s.openPlan.headD .ok <;>
+      simp only [tot, logBytes_append, logBytes_single, List.append_nil, List.append_assoc]
+
+/-- configuration is untouched by `open`, and the flag is set exactly when the outcome is success -/
+theorem doOpen_cfg (s : St) :
+    (doOpen s).1.kind = s.kind ∧ (doOpen s).1.minP = s.minP ∧ (doOpen s).1.maxP = s.maxP ∧
+    (doOpen s).1.dev = s.dev ∧ (doOpen s).1.clock = s.clock ∧ (doOpen s).1.wlog = s.wlog := by
+  simp only [doOpen]
+  split
+  · exact ⟨rfl, rfl, rfl, rfl, rfl, rfl⟩
+  · cases hk : s.kind <;> cases s.openPlan.headD .ok <;> exact ⟨by simp [hk], rfl, rfl, rfl, rfl, rfl⟩
+
+theorem doOpen_flag (s : St) :
+    (doOpen s).1.isOpen = (s.isOpen || decide ((doOpen s).2 = .unit)) := by
+  simp only [doOpen]
+  split
+  · rename_i h; simp [h]
+  · rename_i h
+    have h' : s.isOpen = false := by simpa using h
+    cases s.kind <;> cases s.openPlan.headD .ok <;> simp [h']
+
+theorem doOpen_exc (s : St) :
+    (doOpen s).2 = .unit ∨ (doOpen s).2 = .exc .invalidOp ∨ (doOpen s).2 = .exc .timeout ∨ (doOpen s).2 = .exc .osError := by
+  simp only [doOpen]
+  split
+  · simp
+  · cases s.kind <;> cases s.openPlan.headD .ok <;> simp
 
 theorem doClose_tot (s : St) : tot (doClose s).1 = tot s := by
   simp only [doClose]
   split <;> rfl
+
+theorem doWrite_spec (s : St) (d : Bytes) :
+    tot (doWrite s d).1 = tot s ∧ (doWrite s d).1.kind = s.kind ∧ (doWrite s d).1.minP = s.minP ∧
+    (doWrite s d).1.maxP = s.maxP ∧ (doWrite s d).1.isOpen = s.isOpen ∧ (doWrite s d).1.dev = s.dev ∧
+    (doWrite s d).1.buf = s.buf ∧ (doWrite s d).1.clock = s.clock ∧ (doWrite s d).1.log = s.log := by
+  simp only [doWrite]
+  split
+  · exact ⟨rfl, rfl, rfl, rfl, rfl, rfl, rfl, rfl, rfl⟩
+  · cases hk : s.kind <;> exact ⟨rfl, by simp [hk], rfl, rfl, rfl, rfl, rfl, rfl, rfl⟩
 
 theorem ReadSpec.tot_eq {s : St} {r : St × Out} (h : ReadSpec s r) (hn : r.2 ≠ .exc .runtime) : tot r.1 = tot s := by
   obtain ⟨s', o⟩ := r
